@@ -7,7 +7,7 @@ from sievelib import commands
 RULE = ("every ACCEPTED input of the parse suite (exhaustive token sequences, generated scripts with every command / tag subset and order / "
         "list, string and multi-line forms / nesting, single-token edits, byte mutations): the result tree projected to (name, arguments in "
         "order, tests, block) must equal the tree built from the source by an independent RFC 5228 §8.2 generic-grammar parser with its "
-        "own tokenizer; inputs using one optional tag slot twice are skipped; non-trivial = accepted with ≥ 2 nodes")
+        "own tokenizer — also through a Parser object that has just rejected a damaged version of the same script; inputs using one optional tag slot twice are skipped; non-trivial = accepted with ≥ 2 nodes")
 
 
 def slot_of(table, cmd, tag):
@@ -46,8 +46,8 @@ def repeats_slot(tree, table):
     return False
 
 
-def check(text, table):
-    p = Parser()
+def check(text, table, parser=None):
+    p = parser or Parser()
     if p.parse(text) is not True:
         return None
     got = oracle_generic.project_result(p.result, commands)
@@ -79,8 +79,28 @@ def run(ctx):
         bad = check(t, table)
         if bad:
             viol.append({"input_hex": t.hex(), "input": t.decode("latin-1"), "what": "result tree differs from the script as written: " + bad})
+    # the same oracle through a Parser object that has just REJECTED a damaged version of the script (an author fixing a
+    # script and parsing again): cut inside lists, test lists, blocks and strings, or one token removed
+    r = rng("c03-reuse")
+    gen_ok = [t for t, m, a in zip(rec.text, rec.meta, rec.impl) if m.get("valid") and a.startswith("accept")]
+    nreuse = 0
+    for t in r.sample(gen_ok, min(len(gen_ok), 150 if ctx.tier == "quick" else 1500)):
+        toks = [v for _, v in oracle_generic.tokenize(t)]
+        cuts = set(r.sample(range(1, len(toks)), min(4, max(0, len(toks) - 1)))) if len(toks) > 1 else set()
+        cuts |= {i + 1 for i, x in enumerate(toks) if x in (b"[", b"(", b",")}
+        for k in sorted(cuts)[:12]:
+            for damaged in (b" ".join(toks[:k]), b" ".join(toks[:k] + [b";"]), b" ".join(toks[:k] + toks[k + 1:])):
+                p = Parser()
+                if p.parse(damaged) is True:
+                    continue
+                nreuse += 1
+                bad = check(t, table, parser=p)
+                if bad:
+                    viol.append({"input_hex": t.hex(), "input": t.decode("latin-1"), "history_hex": [damaged.hex()],
+                                 "what": "after a rejected parse of %r on the same Parser, the result tree differs from the script as written: %s" % (damaged.decode("latin-1")[-50:], bad)})
     fresh, known = split_known("C03", viol, matcher)
-    res = std_result(rec, info, fresh, known, RULE, {"accepted_checked": nacc})
+    res = std_result(rec, info, fresh, known, RULE, {"accepted_checked": nacc, "reused_parser_checked": nreuse})
+    res["evaluations"] += nreuse
     res["distinct_nontrivial"] = sum(1 for a in set(rec.impl) if a.startswith("accept") and a.count("(") >= 2)
     return res
 
